@@ -86,6 +86,7 @@ type propMeta struct {
 	ThoroughRuns int64
 	MemLimitKB  int64 // ulimit -v for workers (0 = none)
 	RunTimeout  time.Duration // watchdog: max wall time of a whole worker in quick tier
+	ColdQuick, ColdThorough int64 // extra runs, each in its own fresh process (lazily initialised library state is cold)
 	Rule        string
 	Assumptions []string
 	Real        []string
@@ -112,6 +113,16 @@ var meta = map[string]*propMeta{
 			"preemption is at statement granularity (instrumented copy); intra-statement conflicts are the race detector's job"},
 		Real: append([]string{"pool.go and the factories (real encoders / decoders / serializers)", "Go race detector (made schedule-deterministic by the RaceDisable bracket)", "porcupine v1.3.0"}, commonReal...),
 		Simulated: []string{"caller goroutine scheduling (one task unparked at a time, choice stream decides)", "fake clock (testing/synctest) for block detection", "logger (no-op)"},
+		EvalsAre: "simulated runs",
+	},
+	"C12": {
+		Level: "exploration", Race: true, QuickRuns: 4000, ThoroughRuns: 100000, ColdQuick: 160, ColdThorough: 3200,
+		Rule: "one run = 1..4 shared read-only zoo values (incl. cyclic graphs), one shared type map + name map, N = 2..64 caller tasks each driving its own Serializer or Encoder+Decoder (constructed directly, or obtained from shared pools of size 0..8 and returned) through a drawn script of 1..6 ops {ToBytes, ToObject, WriteTo+ReadFrom, 2-value stream}; all executed under the seeded cooperative scheduler (random / round-robin / PCT, mean quantum 1..100 statements, optional stalls) in a -race build whose hand-off is hidden from the detector. Oracles: every op result equals the result of the same op run alone on a fresh instance (bytes / canonical value rendering incl. pointer identity / masked error text), zero race reports, shared inputs and maps unchanged. A run is non-trivial when at least one context switch happened inside library code; distinct = distinct scheduling fingerprints.",
+		Assumptions: []string{"a result mismatch that also shows when the same scripts run strictly one task after another is a reuse defect (C11), counted as a probe and not reported under C12",
+			"conflicts are found only on paths the scripts execute; the statement's static clause (no write to package-level state anywhere reachable) is not decided by this technique",
+			"preemption is at statement granularity; intra-statement conflicts are found by the race detector, not by the result oracle"},
+		Real: append([]string{"pool.go (when pooled)", "bufio.Reader, bytes.Buffer", "Go race detector (schedule-deterministic through the RaceDisable bracket)"}, commonReal...),
+		Simulated: []string{"caller goroutine scheduling", "fake clock (testing/synctest) for block detection", "map iteration order inside writeMap (seeded)", "logger (no-op)"},
 		EvalsAre: "simulated runs",
 	},
 	"C14": {
@@ -539,6 +550,31 @@ func main() {
 		}(w)
 	}
 	wg.Wait()
+	// cold phase: one run per fresh process, so that lazily initialised package-level state of the
+	// library is met cold by concurrent tasks (a warm process never writes it again)
+	cold := m.ColdQuick
+	if tier == "thorough" {
+		cold = m.ColdThorough
+	}
+	if *runsOverride > 0 && cold > *runsOverride/10 {
+		cold = *runsOverride / 10
+	}
+	if cold > 0 {
+		coldRes := make([]*procResult, cold)
+		sem := make(chan struct{}, workers)
+		for i := int64(0); i < cold; i++ {
+			wg.Add(1)
+			sem <- struct{}{}
+			go func(i int64) {
+				defer wg.Done()
+				defer func() { <-sem }()
+				coldRes[i] = runWorker(m, workerArgs{Prop: prop, Mode: "explore", Seed: seed, From: total + i, Stride: 1, Count: 1, Tier: tier, Known: knownPath}, 5*time.Minute)
+			}(i)
+		}
+		wg.Wait()
+		results = append(results, coldRes...)
+		total += cold
+	}
 
 	agg := &WorkerResult{Faults: map[string]int{}, Probes: map[string]int{}, KnownHits: map[string]int64{}}
 	fpset := map[uint64]bool{}
